@@ -197,7 +197,7 @@ func (env *c09Env) verifierProduct() {
 func runC09(tier string, args []string) {
 	run := ev.New("C09", tier, "exploration")
 	run.Exhaustive(true)
-	run.Rule("certificates are generated by the harness from explicit attributes (own x509 templates, own DER encoding of the receptor otherName SAN): issuer {authority configured for servers (RootCAs), authority configured for clients (ClientCAs), look-alike authorities with the same subject but another key, self-signed, via a good / expired / non-CA intermediate} x validity {valid, expired 1 h ago, expired 10 s ago, valid in 1 h} x usage {server, client, both, other-only, none} x names {expected id, expected as DNS name only, both, other, several incl./excl. the expected one, none (CN = expected), near misses (case, prefix, suffix, blanks), expected under a foreign otherName type, wildcard} x pins {none, sha256, sha512, non-matching 32/64 bytes, non-matching+matching, 20 bytes, 31 of 32 bytes equal, sha256 of the issuer} x peer role {server, client} x name mode {DNS, receptor}; the expected decision is the conjunction of the attributes; one-directional (accept => every condition true) + clean controls must be accepted. Layers: (1) the COMPLETE product as direct calls of the function returned by ReceptorVerifyFunc (this is the exhaustive part), (2) a seeded stratified sample as real TLS 1.2/1.3 handshakes over net.Pipe with configurations produced by PrepareTLSClientConfig+SetClientTLSConfig+GetClientTLSConfig / PrepareTLSServerConfig, (3) real nodes on the in-memory mesh: Listen(RequireAndVerifyClientCert)+DialContext incl. a node presenting another node's valid certificate and node ids containing ':', (4) backends.NewTCPDialer/NewTCPListener over loopback with the same configurations. distinct_nontrivial = distinct (layer, attribute tuple, pins, role, mode) with at least one false condition that were evaluated")
+	run.Rule("certificates are generated by the harness from explicit attributes (own x509 templates, own DER encoding of the receptor otherName SAN): issuer {authority configured for servers (RootCAs), authority configured for clients (ClientCAs), look-alike authorities with the same subject but another key, self-signed, via a good / expired / non-CA intermediate} x validity {valid, expired 1 h ago, expired 10 s ago, valid in 1 h} x usage {server, client, both, other-only, none} x names {expected id, expected as DNS name only, both, other, several incl./excl. the expected one, none (CN = expected), near misses (case, prefix, suffix, blanks), expected under a foreign otherName type, wildcard} x pins {none, sha256, sha512, non-matching 32/64 bytes, non-matching+matching, 20 bytes, 31 of 32 bytes equal, sha256 of the issuer} x peer role {server, client} x name mode {DNS, receptor}; the expected decision is the conjunction of the attributes; one-directional (accept => every condition true) + clean controls must be accepted. Layers: (1) the COMPLETE product as direct calls of the function returned by ReceptorVerifyFunc (this is the exhaustive part; plus one verifier instance serving several peers, and ONE long-lived node asked for client configurations of the same profile and the same expected name alternately in DNS and in receptor mode, both orders, several names, each returned configuration used for real handshakes against trusted certificates that carry the name only as DNS name / only as node id / with the other kind naming somebody else), (2) a seeded stratified sample as real TLS 1.2/1.3 handshakes over net.Pipe with configurations produced by PrepareTLSClientConfig+SetClientTLSConfig+GetClientTLSConfig / PrepareTLSServerConfig, (3) real nodes on the in-memory mesh: Listen(RequireAndVerifyClientCert)+DialContext incl. a node presenting another node's valid certificate and node ids containing ':', (4) backends.NewTCPDialer/NewTCPListener over loopback with the same configurations. distinct_nontrivial = distinct (layer, attribute tuple, pins, role, mode) with at least one false condition that were evaluated")
 	run.Assume("a verifier that refuses more than the statement demands is not an alarm; only the plainest all-true tuples are positive controls")
 	run.Assume("expiry is tested >= 10 s away from the boundary; 'not yet valid' is 1 h ahead")
 	run.Assume("a server verifying clients in DNS mode has no expected name (this is how PrepareTLSServerConfig builds it): the name condition is vacuous there")
@@ -249,6 +249,7 @@ func runC09(tier string, args []string) {
 	env.verifierProduct()
 	env.verifierReuse()
 	env.verifierAging()
+	env.modeMixing()
 	if c := env.certs[len(env.certs)/3]; true {
 		run.Sample(map[string]any{"layer": "verifier", "certificate": c.Attr, "node_ids": c.IDs, "dns": c.DNS, "leaf_sha256_pin": hex.EncodeToString(c.pins("match-sha256")[0]), "expected": env.e})
 	}
